@@ -15,7 +15,7 @@ using namespace kit;
 
 namespace
 {
-    const std::string PROMPT = "$ ";
+    const char *PROMPTS[] = {"$ ", "", "igris> ", ">"};
 
     // ---------------------------------------------------------------- VT100 screen model (one logical row)
     struct Screen
@@ -151,7 +151,8 @@ namespace
             Plan p;
             int cap = (int)r.range(2, 24), H = (int)r.range(1, 5);
             if (r.chance(1, 4)) cap = (int)r.range(2, 5);
-            p.cfg = {cap, H};
+            // prompt variant and echo switch (echo off: only the executed lines and the bounds can be checked)
+            p.cfg = {cap, H, r.chance(2, 3) ? 0 : (int64_t)r.range(1, 3), r.chance(1, 8) ? 0 : 1};
             int n = (int)r.range(4, tier == THOROUGH ? 200 : 120);
             int style = (int)r.below(3); // 0 mixed, 1 edit-heavy, 2 history-heavy
             for (int i = 0; i < n; i++)
@@ -193,7 +194,11 @@ namespace
             RefEditor ref;
             ref.cap = cap;
             ref.H = H;
-            term->start((unsigned)cap, (unsigned)H, &sink);
+            const std::string PROMPT = PROMPTS[mod(p.c(2), 4)];
+            bool echo = mod(p.c(3, 1), 2) != 0;
+            if (!echo) probe("echo_off");
+            if (PROMPT != "$ ") probe("other_prompt");
+            term->start((unsigned)cap, (unsigned)H, &sink, PROMPTS[mod(p.c(2), 4)], echo);
             int last_byte = -1;          // last byte delivered (for the CR-LF / LF-CR pairing rule)
             bool last_nl_fired = false;  // that byte was a line-end byte that produced a line end
             size_t n_exec_expected = 0;
@@ -216,6 +221,11 @@ namespace
                 if (sink.bad_exec) violate("C15/execute-args", "%s: %s", when, sink.bad_msg.c_str());
             };
             auto check_screen = [&](const char *when) {
+                if (!echo)
+                {
+                    if (sink.echo_bytes != 0) violate("C15/echo-off", "%s: %llu bytes were written to the terminal although echo is switched off", when, (unsigned long long)sink.echo_bytes);
+                    return;
+                }
                 std::string shown = sink.scr.shown();
                 std::string w1 = PROMPT + ref.line, w0 = ref.line;
                 bool ok1 = shown == w1 && sink.scr.col == PROMPT.size() + ref.cursor;
